@@ -178,6 +178,13 @@ def run_group(group, repo="/repo", extra_args=None, keep=False, seed=None):
     believed: a genuine violation fails under every seed, an unstable proof does not.  Only
     the functions that fail in ALL runs stay failed."""
     r = _run_group_once(group, repo, extra_args, keep, seed)
+    if r["status"] == "undecided" and r.get("reason") == "solver resource limit":
+        # a resource limit under one solver seed is not yet a limit of the proof: one more try
+        r2 = _run_group_once(group, repo, extra_args, keep, (seed or 0) + 17)
+        if r2["status"] == "ok":
+            r2["seed_retries"] = {"first_seed": seed, "ok_under_seed": (seed or 0) + 17, "note": "resource limit under the first seed"}
+            return r2
+        return r
     if r["status"] != "failed":
         return r
     runs = [r]
